@@ -47,13 +47,46 @@ func chanRecvFields(fn *ssa.Function) []FieldRef {
 // that returns true only after a receive from that parameter completed (e.g. a non-blocking "is it closed" probe).
 // Returns the channel argument.
 func recvPredicateCall(call *ssa.Call) (ssa.Value, bool) {
+	ch, kind := recvResultCall(call)
+	return ch, kind == "bool"
+}
+
+// recvResultCall generalises recvPredicateCall: the helper's result tells whether a receive completed — a bool that is true
+// only after it ("bool"), or an error that is nil only after it ("error": `waitForSettings() error`). Returns the channel
+// and the kind ("" when call is no such helper).
+func recvResultCall(call *ssa.Call) (ssa.Value, string) {
+	ch, ok, kind := recvResultCall1(call)
+	if !ok {
+		return nil, ""
+	}
+	return ch, kind
+}
+
+func recvResultCall1(call *ssa.Call) (ssa.Value, bool, string) {
+	ch, ok := ssa.Value(nil), false
+	kind := ""
 	f := helperCallee(call)
 	if f == nil || f.Signature.Results().Len() != 1 {
-		return nil, false
+		return nil, false, ""
 	}
-	if b, ok := f.Signature.Results().At(0).Type().Underlying().(*types.Basic); !ok || b.Kind() != types.Bool {
-		return nil, false
+	if b, isB := f.Signature.Results().At(0).Type().Underlying().(*types.Basic); isB && b.Kind() == types.Bool {
+		kind = "bool"
+	} else if types.TypeString(f.Signature.Results().At(0).Type(), nil) == "error" {
+		kind = "error"
+	} else {
+		return nil, false, ""
 	}
+	negative := func(v ssa.Value) bool { // a result that does NOT promise a completed receive
+		if kind == "bool" {
+			return isConstBool(v, false)
+		}
+		return !isNilConst(v)
+	}
+	ch, ok = recvResultBody(call, f, negative)
+	return ch, ok, kind
+}
+
+func recvResultBody(call *ssa.Call, f *ssa.Function, negative func(ssa.Value) bool) (ssa.Value, bool) {
 	var chP *ssa.Parameter
 	idx := -1
 	for i, p := range f.Params {
@@ -86,6 +119,9 @@ func recvPredicateCall(call *ssa.Call) (ssa.Value, bool) {
 				}
 			}
 		})
+		if len(fields) == 0 {
+			return nil, false
+		}
 		// one channel field (possibly probed more than once: non-blocking first, then blocking)
 		for _, f := range fields[1:] {
 			a, _, _ := loadedField(fields[0])
@@ -100,7 +136,7 @@ func recvPredicateCall(call *ssa.Call) (ssa.Value, bool) {
 		want, _, _ := loadedField(fields[0])
 		okAll, n := true, 0
 		forEachReturnValue(f, 0, func(v ssa.Value, at ssa.Instruction) {
-			if isConstBool(v, false) {
+			if negative(v) {
 				return
 			}
 			n++
@@ -121,7 +157,7 @@ func recvPredicateCall(call *ssa.Call) (ssa.Value, bool) {
 	}
 	okAll, n := true, 0
 	forEachReturnValue(f, 0, func(v ssa.Value, at ssa.Instruction) {
-		if isConstBool(v, false) {
+		if negative(v) {
 			return
 		}
 		n++
@@ -258,6 +294,18 @@ func recvDominates1(in ssa.Instruction, match func(ch ssa.Value) bool) bool {
 	for _, f := range boolFactsAt(in) {
 		if call, isCall := f.V.(*ssa.Call); isCall && f.True {
 			if ch, ok := recvPredicateCall(call); ok && match(ch) {
+				return true
+			}
+		}
+	}
+	// (a'') nil result of a helper whose error is nil only after the receive completed
+	for _, f := range factsAt(in) {
+		x, op, y, ok := cmpFact(f)
+		if !ok || op != token.EQL || !isNilConst(y) {
+			continue
+		}
+		if call, isCall := origin(x).(*ssa.Call); isCall {
+			if ch, kind := recvResultCall(call); kind == "error" && match(ch) {
 				return true
 			}
 		}
@@ -880,6 +928,10 @@ func ruleMetadataAccumulation(c *Ctx, rule string) {
 					if elems[0] != nil && elems[1] != nil {
 						fr0, _, isF := loadedField(elems[0])
 						_, isParam := stripConv(elems[1]).(*ssa.Parameter)
+						if !isParam {
+							// through a helper's parameter, or a variable captured by a function literal run under the lock
+							_, isParam = origin(elems[1]).(*ssa.Parameter)
+						}
 						ok = isF && fr0 == dst && isParam
 					}
 				}
@@ -945,7 +997,30 @@ func ruleMetadataAccumulation(c *Ctx, rule string) {
 			}
 		}
 		c.check(ok, rule, emitKey(w, e)+": carries the metadata assembled at allocation", w.At(e.Alloc), desc(v), "new_stream RequestHeaders is "+desc(v)+", expected toProto(<metadata returned by the allocation function>)")
-		c.check(len(a.NewStream.Params) > 4 && origin(e.Payload["NewStream.MethodName"]) == ssa.Value(a.NewStream.Params[4]), rule, emitKey(w, e)+": names the requested method", w.At(e.Alloc), desc(e.Payload["NewStream.MethodName"]), "new_stream MethodName is "+desc(e.Payload["NewStream.MethodName"])+", not the method the caller asked for")
+		// the method name is the one the application passed to Invoke / NewStream: an input of the stream-creation function
+		// for which both exported entry points supply their own method-name parameter
+		okName := false
+		mv := e.Payload["NewStream.MethodName"]
+		if inp := inputOf(a.NewStream, mv); inp != nil {
+			okName = true
+			nEntries := 0
+			for _, en := range []*ssa.Function{w.methodFn(a.Ch, "Invoke"), w.methodFn(a.Ch, "NewStream")} {
+				if en == nil {
+					continue
+				}
+				for _, sv := range w.suppliedBy(a.NewStream, *inp, en, 0) {
+					nEntries++
+					p, isP := origin(sv).(*ssa.Parameter)
+					if !isP || p.Parent() != en || types.TypeString(p.Type(), nil) != "string" {
+						okName = false
+					}
+				}
+			}
+			if nEntries < 2 {
+				okName = false
+			}
+		}
+		c.check(okName, rule, emitKey(w, e)+": names the requested method", w.At(e.Alloc), desc(mv), "new_stream MethodName is "+desc(mv)+", not the method the caller asked for")
 	}
 	if a.Allocate != nil {
 		fn := a.Allocate
